@@ -236,6 +236,33 @@ def run_program(mod, name, sizes, ninf, maxtot, seed, schedule, have_offdiag, fl
         rnd.shuffle(reqs)
     elif schedule == "intermediates-first":
         reqs = [(nm, b, o) for nm in inter + outputs for o in orders for b in blocks]
+    if schedule == "batched":
+        # ONE request per (series, block) for all orders at once (a slice for one parameter, paired lists for several): intermediate series are deleted while later elements of
+        # the same request are evaluated - the request must still return every element it was asked for
+        for nm in inter + outputs:
+            if nm not in series:
+                fail("series missing from the result of series_computation", name=nm, **label)
+                return
+            for (i, j) in blocks:
+                item = (i, j, slice(None, maxtot + 1)) if ninf == 1 else (i, j) + tuple([o[k] for o in orders] for k in range(ninf))
+                olist = [(k,) for k in range(maxtot + 1)] if ninf == 1 else orders
+                try:
+                    arr = series[nm][item]
+                except Exception as ex:
+                    fail("a request of several elements at once raised", name=nm, index=repr(item)[:120], error=repr(ex)[:300], **label)
+                    return
+                data, mask = np.ma.getdata(arr), np.ma.getmaskarray(arr)
+                if data.shape != (len(olist),):
+                    fail("a request of several elements at once has the wrong shape", name=nm, index=repr(item)[:120], shape=data.shape, **label)
+                    return
+                for pos, o in enumerate(olist):
+                    got = zero if mask[pos] else data[pos]
+                    want = ref.val(nm, i, j, tuple(o))
+                    gotm = np.zeros_like(want) if got is zero else (np.eye(sizes[i], dtype=complex) if got is one else np.asarray(got))
+                    if gotm.shape != want.shape or np.abs(gotm - want).max(initial=0) > 1e-9 * max(1.0, np.abs(want).max(initial=0)):
+                        fail("an element of a request of several elements differs from the direct interpretation of its definition", name=nm, index=(i, j) + tuple(o), **label)
+                        return
+        return
     for nm, (i, j), o in reqs:
         if nm not in series:
             fail("series missing from the result of series_computation", name=nm, **label)
@@ -262,7 +289,7 @@ def main():
     mod, names = load_corpus()
     if only and not only[0].startswith("gen:"):
         names = [n for n in names if n in only]
-    schedules = ["ascending", "descending-offdiagonal-first", "shuffled-with-repeats", "intermediates-first"]
+    schedules = ["ascending", "descending-offdiagonal-first", "shuffled-with-repeats", "intermediates-first", "batched"]
     layouts = [((2, 2), 1, 3), ((2, 3), 1, 3), ((1, 2, 2), 1, 2), ((2, 3), 2, 2)]
     if THOROUGH:
         layouts += [((3, 1, 2), 2, 2), ((2, 2, 1, 1), 1, 2)]
